@@ -392,3 +392,4 @@ mut("ident-blockslice-clock-end-exclusive", "C04", SL, "            BlockSlice::
 mut("ident-blockrange-slice-keeps-len", "C04", B, "        next.clock += offset;\n        next.len -= offset;\n        next", "        next.clock += offset;\n        next", "lookup")
 mut("ident-benign-blockslice-separate-arms", "C04", SL, "            BlockSlice::GC(s) | BlockSlice::Skip(s) => s.clock + s.len - 1,", "            BlockSlice::GC(s) => s.clock + s.len - 1,\n            BlockSlice::Skip(s) => s.clock + s.len - 1,", "", kind="benign")
 mut("ident-benign-itemslice-len-named", "C04", SL, "        self.end - self.start + 1\n", "        let span = self.end - self.start;\n        1 + span\n", "", kind="benign")
+mut("sv-set-min-takes-max", "C02", "yrs/src/state_vector.rs", "                *value = (*value).min(clock);", "                *value = (*value).max(clock);", "C02.b5")
